@@ -55,6 +55,7 @@ func delWinsLog(evs []vsched.Event, post func(key int64) (present bool, known bo
 		return phases[k]
 	}
 	var out []Viol
+	waiting := map[int8][]int64{} // thread -> keys whose Del had returned when the thread's Wait began
 	for _, e := range evs {
 		switch e.Kind {
 		case evSetCall:
@@ -79,25 +80,31 @@ func delWinsLog(evs []vsched.Event, post func(key int64) (present bool, known bo
 		case evDelRet:
 			get(e.A).phase = 1
 		case evWaitCall:
-			for _, kp := range phases {
-				if kp.phase == 1 {
-					kp.phase = 11 // a Wait that began after the Del returned
-				}
-			}
-		case evWaitRet:
+			// this thread's Wait began after the Dels that have returned so far
+			var ks []int64
 			for k, kp := range phases {
-				if kp.phase == 11 {
-					kp.phase = 2
-					if len(kp.owed) > 0 {
-						var o []int64
-						for v := range kp.owed {
-							o = append(o, v)
-						}
-						sort.Slice(o, func(i, j int) bool { return o[i] < o[j] })
-						out = append(out, Viol{Key: id + "/deleted-value-not-released-by-wait", What: fmt.Sprintf("Del(%d) returned and a later Wait returned, but value(s) %v accepted before the Del have not been passed to OnExit", k, o)})
-					}
+				if kp.phase == 1 {
+					ks = append(ks, k)
 				}
 			}
+			waiting[e.Tid] = ks
+		case evWaitRet:
+			for _, k := range waiting[e.Tid] {
+				kp := phases[k]
+				if kp == nil || kp.phase != 1 {
+					continue // a Set of k was issued meanwhile
+				}
+				kp.phase = 2
+				if len(kp.owed) > 0 {
+					var o []int64
+					for v := range kp.owed {
+						o = append(o, v)
+					}
+					sort.Slice(o, func(i, j int) bool { return o[i] < o[j] })
+					out = append(out, Viol{Key: id + "/deleted-value-not-released-by-wait", What: fmt.Sprintf("Del(%d) returned and a Wait that began afterwards returned, but value(s) %v accepted before the Del have not been passed to OnExit", k, o)})
+				}
+			}
+			delete(waiting, e.Tid)
 		case evGetRet:
 			if kp := phases[e.A]; kp != nil && kp.phase == 2 && e.C == 1 {
 				out = append(out, Viol{Key: id + "/get-hits-after-del-and-wait", What: fmt.Sprintf("Get(%d) returned value %d although Del(%d) had returned, a later Wait had returned and no Set of that key was issued since", e.A, e.B, e.A)})
@@ -128,6 +135,7 @@ func delAbstract(evs []vsched.Event, ren func(int64) int64) string {
 	}
 	vals := map[int64]*vst{}
 	phase := map[int64]int{}
+	waitingA := map[int8][]int64{}
 	owed := map[int64]map[int64]bool{}
 	for _, e := range evs {
 		switch e.Kind {
@@ -155,16 +163,27 @@ func delAbstract(evs []vsched.Event, ren func(int64) int64) string {
 		case evDelRet:
 			phase[e.A] = 1
 		case evWaitCall:
+			var ks []int64
 			for k, p := range phase {
 				if p == 1 {
-					phase[k] = 11
+					ks = append(ks, k)
 				}
 			}
+			waitingA[e.Tid] = ks
 		case evWaitRet:
-			for k, p := range phase {
-				if p == 11 {
+			for _, k := range waitingA[e.Tid] {
+				if phase[k] == 1 {
 					phase[k] = 2
 				}
+			}
+			delete(waitingA, e.Tid)
+		}
+	}
+	// a Wait in flight is part of the bookkeeping
+	for _, ks := range waitingA {
+		for _, k := range ks {
+			if phase[k] == 1 {
+				phase[k] = 11
 			}
 		}
 	}
@@ -238,7 +257,7 @@ func c05Jobs(tier string) []Job {
 	set := func(k int) Op { return Op{K: "set", Key: k, Cost: 1} }
 	for _, sb := range []int{1, 2} {
 		cfg := Cfg{NumCounters: 16, MaxCost: 3, BufferItems: 2, SetBuf: sb}
-		for i, other := range [][]Op{{set(257), {K: "get", Key: 257}}, {{K: "del", Key: 257}, set(257)}, {{K: "get", Key: 1}, {K: "get", Key: 1}}} {
+		for i, other := range [][]Op{{set(257), {K: "get", Key: 257}}, {{K: "del", Key: 257}, set(257)}, {{K: "get", Key: 1}, {K: "get", Key: 1}}, {{K: "wait"}, set(257)}} {
 			for si, setup := range [][]Op{{set(1), {K: "wait"}}, {set(1), {K: "wait"}, set(1)}, {set(1)}} {
 				if tier != "thorough" && sb == 2 && si != 1 {
 					continue
